@@ -8,3 +8,10 @@ package crypto
 //@   pure
 //@   ensures err == nil <==> id == 16 || id == 17 || id == 18 || id == 19 || id == 20 || id == 23
 //@   ensures err == nil ==> et_known(tagof(et)) && et_id(tagof(et)) == id
+
+// IANA Kerberos checksum type numbers -> implementations: 12 hmac-sha1-des3-kd, 15 / 16 hmac-sha1-96-aes128 / 256,
+// 19 hmac-sha256-128-aes128, 20 hmac-sha384-192-aes256, -138 hmac-md5 (RFC 4757)
+//@ func crypto.GetChksumEtype(id) (et, err)
+//@   pure
+//@   ensures err == nil <==> id == 12 || id == 15 || id == 16 || id == 19 || id == 20 || id == -138
+//@   ensures err == nil ==> cksum_etype_ok(id, tagof(et))
